@@ -104,7 +104,8 @@ Qed.
 (* ---------------------------------------------------------------------------------- *)
 (* a property of every response that the reader builds holds for every response sent     *)
 (* ---------------------------------------------------------------------------------- *)
-Definition pc_resps (pc : rpc) : list resp := match pc with RSend _ _ _ r => [r] | _ => [] end.
+Definition pc_resps (pc : rpc) : list resp :=
+  match pc with RSend _ _ _ r | REnq _ _ _ r => [r] | _ => [] end.
 Definition all_resps (st : state) : list resp := concat (st_senders st) ++ pc_resps (st_reader st).
 
 Definition built_ok (db : list item) (P : resp -> Prop) : Prop :=
@@ -145,7 +146,7 @@ Proof.
   - destruct (st_reader st) eqn:Epc; try discriminate. destruct (st_chunreg st) as [|p0 rest0]; [discriminate|].
     inversion H; subst. split; [|intros r [E|[]]; discriminate]. apply Forall_forall. intros r Hr. apply HP.
     unfold all_resps in *. simpl in *. rewrite Epc. simpl. exact Hr.
-  - destruct (st_reader st) as [|rq|rq i ss|rq i ss r0] eqn:Epc; try discriminate.
+  - destruct (st_reader st) as [|rq|rq i ss|rq i ss r0|rq i ss r0] eqn:Epc; try discriminate.
     + destruct (st_pending st <? c_limit cfg); [|discriminate].
       destruct (reader_top v cfg st rq) as [st1 e1] eqn:Et. inversion H; subst.
       destruct (reader_top_resps _ _ _ _ _ _ Et) as [Hs [Hpc [_ Hne]]].
@@ -160,9 +161,11 @@ Proof.
         -- apply HP. unfold all_resps. apply in_or_app. left. exact Hr.
         -- subst r. eapply HB. exact Ef.
       * apply HP. unfold all_resps in *. simpl in *. rewrite Epc. simpl. exact Hr.
+    + unfold reader_add in H. destruct (st_pending st <? c_limit cfg); [|discriminate].
+      inversion H; subst. split; [|intros r []]. apply Forall_forall. intros r Hr.
+      apply HP. unfold all_resps in *. rewrite Epc. simpl in *. exact Hr.
     + unfold reader_send in H.
-      destruct ((st_pending st <? c_limit cfg) &&
-                (N.of_nat (length (nth (s_sender ss) (st_senders st) [])) <=? c_maxtasks cfg) &&
+      destruct ((N.of_nat (length (nth (s_sender ss) (st_senders st) [])) <=? c_maxtasks cfg) &&
                 (Nat.ltb (s_sender ss) (length (st_senders st)))); [|discriminate].
       inversion H; subst. split; [|intros r [E|[]]; discriminate]. apply Forall_forall. intros r Hr.
       unfold all_resps in Hr. simpl in Hr. rewrite app_nil_r in Hr.
